@@ -93,4 +93,27 @@ theorem hlFilter_getElem (es : List RawEnt) : ∀ (seen : List (Nat × Bytes)) (
           rw [ih _ k hk, List.append_assoc]
           rfl
 
+/-- `keep_entry` for one `--subdir` argument selects exactly the directory itself, its ancestors and what lies below it -/
+theorem keepFor_iff (p name : Bytes) :
+    keepFor p name = true ↔ name = p ∨ isBelow name p = true ∨ isBelow p name = true := by
+  unfold keepFor isBelow
+  by_cases h : name.length ≤ p.length
+  · rw [if_pos h]
+    by_cases he : name.length = p.length
+    · have h1 : ¬ name.length < p.length := by omega
+      have h2 : ¬ p.length < name.length := by omega
+      have ht : p.take name.length = p := by rw [he]; exact List.take_length
+      simp only [he, true_or, true_and, List.take_length, Nat.lt_irrefl, false_and, decide_false, Bool.false_eq_true, or_false,
+        decide_eq_true_eq]
+      exact eq_comm
+    · have h1 : name.length < p.length := by omega
+      have h2 : ¬ p.length < name.length := by omega
+      have hne : name ≠ p := by intro h; subst h; exact he rfl
+      simp only [he, false_or, h1, h2, true_and, false_and, decide_false, hne, decide_eq_true_eq, Bool.false_eq_true, or_false]
+  · rw [if_neg h]
+    have h1 : ¬ name.length < p.length := by omega
+    have h2 : p.length < name.length := by omega
+    have hne : name ≠ p := by intro h'; subst h'; omega
+    simp only [h1, h2, true_and, false_and, decide_false, false_or, hne, decide_eq_true_eq, Bool.false_eq_true]
+
 end Sqfs.Tar
